@@ -154,6 +154,31 @@ def slow(t: float) -> int:
 '''
 
 
+# module with a mutated version that is registered through ModuleProvider.add_mutated_version
+MUTANT_ORIGINAL = '''
+def scale(x: int) -> int:
+    if x > 2:
+        return x * 2
+    return x
+
+def label(x: int) -> str:
+    if x % 2 == 0:
+        return "even"
+    return "odd"
+'''
+MUTANT_MUTATED = '''
+def scale(x: int) -> int:
+    if x > 2:
+        raise ValueError("mutant")
+    return x + 1
+
+def label(x: int) -> str:
+    if x % 2 == 0:
+        return "EVEN"
+    return "odd"
+'''
+
+
 def canon_assertion(a) -> str:
     d = {k: v for k, v in vars(a).items()}
     txt = type(a).__name__ + ":" + ";".join(f"{k}={d[k]!r}" for k in sorted(d))
@@ -183,7 +208,7 @@ def main() -> None:  # noqa: PLR0915
     base = Path(sc["dir"])
     base.mkdir(parents=True, exist_ok=True)
     name = "c31sut_" + sc["module"]
-    src = {"crash": CRASH_MODULE, "slow": SLOW_MODULE}.get(sc["module"]) or MODULES[sc["module"]]
+    src = {"crash": CRASH_MODULE, "slow": SLOW_MODULE, "mutant": MUTANT_ORIGINAL}.get(sc["module"]) or MODULES[sc["module"]]
     (base / f"{name}.py").write_text(src)
     os.environ["PYNGUIN_DANGER_AWARE"] = "1"
     import logging
@@ -237,6 +262,35 @@ def main() -> None:  # noqa: PLR0915
         for i, ln in enumerate(lines):
             t.add_statement(Statement(node=cst.parse_statement(ln), bound_variable=f"var_{i}"))
         return t
+
+    if sc["module"] == "mutant":
+        import types
+
+        def fresh(cls):
+            exr = cls(sp, maximum_test_execution_timeout=max_t, test_execution_time_per_statement=per_t)
+            mutated = types.ModuleType(name)
+            exec(compile(MUTANT_MUTATED, name + "_mutant.py", "exec"), mutated.__dict__)  # noqa: S102
+            exr.module_provider.add_mutated_version(name, mutated)
+            exr.add_remote_observer(ato.RemoteAssertionTraceObserver())
+            return exr
+
+        progs = [["var_0 = scale(5)"], ["var_0 = scale(1)", "var_1 = scale(var_0)", "var_2 = label(var_1)"],
+                 ["var_0 = label(4)", "var_1 = scale(2)", "var_2 = scale(var_1)"]]
+        # (a) a fresh executor per call, the test case handed over as a one-shot iterator
+        for p in progs:
+            t = tc(p)
+            r_in = list(fresh(TestCaseExecutor).execute_multiple(iter([t])))[0]
+            r_sub = list(fresh(SubprocessTestCaseExecutor).execute_multiple(iter([t])))[0]
+            out["cases"].append({"code": t.to_code(), "size": t.size(), "n_assertions": 0, "mutant": True,
+                                 "pass1": {"inproc": canon(r_in, sp), "subproc": canon(r_sub, sp)}})
+        # (b) the mutated version is registered once, the same executor is used three times
+        rep = {}
+        for key, cls in (("inproc", TestCaseExecutor), ("subproc", SubprocessTestCaseExecutor)):
+            exr = fresh(cls)
+            rep[key] = [canon(list(exr.execute_multiple([tc(progs[0])]))[0], sp) for _ in range(3)]
+        out["repeat"] = rep
+        print("RESULT " + json.dumps(out), flush=True)
+        os._exit(0)
 
     if sc["module"] == "slow":
         nap = sc["nap"]
@@ -327,6 +381,12 @@ def main() -> None:  # noqa: PLR0915
             rs = list(sub.execute_multiple(tests))
             ri = [inproc.execute(t) for t in tests]
             out["batch_all"] = {"subproc": [canon(r, sp) for r in rs], "inproc": [canon(r, sp) for r in ri]}
+            # the search hands execute_multiple one-shot iterators (generator expressions): 1, 2 and all tests
+            out["iter_batches"] = []
+            for k in sorted({1, min(2, len(tests)), len(tests)}):
+                rk = list(sub.execute_multiple(t for t in tests[:k]))
+                out["iter_batches"].append({"k": k, "subproc": [canon(r, sp) for r in rk],
+                                            "inproc": [canon(r, sp) for r in ri[:k]]})
     else:
         kinds = {"fine": ["var_0 = fine(%d)"], "fine2": ["var_0 = fine(%d)", "var_1 = fine(var_0)"],
                  "die": ["var_0 = die(%d)"], "hang": ["var_0 = hang(%d)"]}
